@@ -164,3 +164,75 @@ def run_scenario(kind, seed, fill, tfill, extra_pad, base_cache):
     except Exception as e:  # noqa: BLE001
         rec["status"] = f"{type(e).__name__}: {str(e)[:120]}"
     return rec
+
+
+# ----------------------------------------------------------------------------------------------
+# WTAlgebra.tla: operators of WeightedTensor on enumerated cases
+import operator as _op
+
+_PY = {"add": lambda x, y: x + y, "radd": lambda x, y: y + x, "sub": lambda x, y: x - y, "rsub": lambda x, y: y - x,
+       "mul": lambda x, y: x * y, "rmul": lambda x, y: y * x, "div": lambda x, y: x / y, "rdiv": lambda x, y: y / x,
+       "lt": _op.lt, "le": _op.le, "eq": _op.eq, "ne": _op.ne, "gt": _op.gt, "ge": _op.ge,
+       "neg": lambda x, y: -x, "abs": lambda x, y: abs(x), "sq": lambda x, y: x ** 2}
+
+
+def _rat(value, den, tol=1e-5):
+    v = float(value)
+    if v != v or v in (float("inf"), float("-inf")) or den == 0:
+        return {"num": 0, "den": int(den), "close": False}
+    num = int(round(v * den))
+    return {"num": num, "den": int(den), "close": bool(abs(v * den - num) <= tol * max(1.0, abs(v * den)))}
+
+
+def run_algebra_case(case):
+    """case: dict with a, w, op, kind, b, expv (rationals as [num, den]) from the TLC dump.  `x (op) operand` is written with the
+    Python operators, so that the reflected methods are reached the way users reach them (operand on the left)."""
+    a, w, opn, kind, b = [int(x) for x in case["a"]], [int(x) for x in case["w"]], str(case["op"]), str(case["kind"]), [int(x) for x in case["b"]]
+    expv = [[int(x) for x in e] for e in case["expv"]]
+    rec = {"a": a, "w": w, "op": opn, "kind": kind, "b": b, "key": repr((a, w, opn, kind, b))}
+    zero = {"num": 0, "den": 0, "close": False}
+    rec.update(outcome="ok", weights=[0, 0], wcount=-1, wsum=zero, wsum_own_ok=False, values=[zero, zero], operands_untouched=False)
+    av = torch.tensor([conc(x) for x in a], dtype=torch.float32)
+    wt = torch.tensor([bool(x) for x in w])
+    x = WeightedTensor(av.clone(), wt.clone())
+    bv = torch.tensor([float(v) for v in b])
+    if kind == "number":
+        other = float(b[0])
+    elif kind == "tensor":
+        other = bv.clone()
+    elif kind == "wt_same":
+        other = WeightedTensor(bv.clone(), wt.clone())
+    elif kind == "wt_none":
+        other = WeightedTensor(bv.clone())
+    else:
+        other = WeightedTensor(bv.clone(), ~wt)
+    try:
+        r = _PY[opn](x, other)
+    except NotImplementedError:
+        rec["outcome"] = "refused"
+        return rec
+    except Exception as e:  # noqa: BLE001
+        rec["outcome"] = f"{type(e).__name__}: {str(e)[:100]}"
+        return rec
+    if not isinstance(r, WeightedTensor) or r.weight is None:
+        rec["outcome"] = "weights_lost"
+        return rec
+    rec["weights"] = [int(bool(v)) for v in r.weight.reshape(-1).tolist()]
+    val = r.value.reshape(-1).double()
+    rec["values"] = [_rat(val[i], expv[i][1]) if w[i] else zero for i in range(2)]
+    if r.value.dtype == torch.bool:      # comparisons: sum the truth values
+        r = WeightedTensor(r.value.float(), r.weight)
+    s, n = r.wsum()
+    rec["wcount"] = int(n)
+    # the aggregate of the result sees its observed entries only (whatever the arithmetic made of them)
+    own = sum(float(val[i]) for i in range(2) if w[i])
+    rec["wsum_own_ok"] = bool(abs(float(s) - own) <= 1e-5 * max(1.0, abs(own)))
+    den = 1
+    for i in range(2):
+        if w[i]:
+            den *= expv[i][1]
+    rec["wsum"] = _rat(s, den if sum(w) == 2 else (expv[w.index(1)][1] if sum(w) == 1 else 1))
+    same = lambda p, q: bool(torch.equal(torch.nan_to_num(p, nan=-7.0, posinf=-8.0), torch.nan_to_num(q, nan=-7.0, posinf=-8.0)))  # noqa: E731
+    rec["operands_untouched"] = same(x.value, av) and bool(torch.equal(x.weight, wt)) and (
+        not isinstance(other, (torch.Tensor, WeightedTensor)) or same(other.value if isinstance(other, WeightedTensor) else other, bv))
+    return rec
